@@ -303,6 +303,8 @@ def ka_log2(x): return ka_log(x, 2)
 def ka_log(x, base):
     if dispatch("<=", (x, 0)):
         raise KaRuntimeError(f"Non-positive value passed to log: {x}")
+    if dispatch("<=", (base, 0)) or dispatch("==", (base, 1)):
+        raise KaRuntimeError(f"Invalid base passed to log: {base}")
     return math.log(x, base)
 
 def ka_sqrt(x):
